@@ -13,17 +13,17 @@ ASSUMPTIONS = [
   "white space judged only when the paragraph's text nodes all share one xml:space value, never inside rt/rtc/rp",
   "node identity is checked against the source document's objects (not against internal cache clones)",
 ]
-REQUIRED = ["snapshots:plain", "snapshots:cached", "snapshots:non-empty", "c13:nodes", "class:ruby", "class:preserve-space", "class:ws-varied"]
+REQUIRED = ["corpus-docs", "snapshots:plain", "snapshots:cached", "snapshots:non-empty", "c13:nodes", "class:ruby", "class:preserve-space", "class:ws-varied"]
 SHARD_TIMEOUT = {"quick": 900, "thorough": 7200}
 N = {"quick": 20, "thorough": 1500}
 
 
 def plan(tier, seed):
-  return [{"n": N[tier], "shard": i, "profile": "isd" if i % 2 == 0 else "style"} for i in range(16)]
+  return [{"n": N[tier], "shard": i, "profile": "isd" if i % 2 == 0 else "style"} for i in range(14)] + _isdwork.corpus_shards(tier)
 
 
 def run(ctx, params):
-  _isdwork.run_docs(ctx, params, {"C13"}, params["profile"])
+  _isdwork.run_docs(ctx, params, {"C13"}, params.get("profile", "isd"))
 
 
 def replay(ctx, payload):
